@@ -22,6 +22,7 @@
 #include <string.h>
 #include <unistd.h>
 #include <dirent.h>
+#include <fcntl.h>
 #include <sys/stat.h>
 #include <time.h>
 #include <pthread.h>
@@ -159,7 +160,9 @@ int main(int argc, char** argv) {
     mem = wasmMemoryAllocate(40, 40, false);
     before = malloc(MEMSIZE);
     if (!wasiInit(nargs, wargv, wenv)) return 2;
-    if (!wasiFileDescriptorAdd(-1, (char*)sandbox, NULL)) return 2;       /* descriptor 3: the pre-opened sandbox */
+    /* descriptor 3: the pre-opened sandbox - by path only (what the examples do) or, with VERIF_PREOPEN_NATIVE, together with
+       a directory descriptor the embedder has opened itself */
+    if (!wasiFileDescriptorAdd(getenv("VERIF_PREOPEN_NATIVE") ? open(sandbox, O_RDONLY | O_DIRECTORY) : -1, (char*)sandbox, NULL)) return 2;
     sc = fopen(argv[2], "r");
     while (sc && fgets(line, sizeof line, sc)) {
         char cmd[32], abi = 'p'; char* tok[80]; int nt = 0, k; char* save = NULL, *p;
